@@ -201,8 +201,9 @@ def trace_events(optic, rays, st, picks, cls):
         d0 = (float(sg.L[0, r]), float(sg.M[0, r]), float(sg.N[0, r]))
         d = (float(rays.L[r]), float(rays.M[r]), float(rays.N[r]))
         Pm = np.asarray(rays.p[r])
-        vals = list(d0) + list(d) + [float(rays.i[r])] + list(np.ravel(Pm.real)) + list(np.ravel(Pm.imag))
-        if not all(math.isfinite(v) for v in vals):
+        # a ray is lost when its geometry is non-finite; a ray that arrives (finite direction) with a
+        # non-finite intensity or polarization matrix is judged (clause field_finite)
+        if not all(math.isfinite(v) for v in list(d0) + list(d)):
             skipped += 1
             continue
         s, p = launch_basis(d0)
@@ -259,7 +260,9 @@ def lens_job(args):
             for nm, st in states:
                 rays = run(st)
                 ntr += 1
-                picks = rnd.sample(range(rays.x.size), min(nrays, rays.x.size))
+                # the centre ray of the hexapolar pattern is always judged: on the axis of an untilted
+                # lens it meets every surface at normal incidence (and a mirror sends it straight back)
+                picks = [0] + rnd.sample(range(1, rays.x.size), min(nrays, rays.x.size) - 1)
                 ev, sk = trace_events(optic, rays, st, picks, dict(cls, state=nm))
                 events += ev
                 skipped += sk
@@ -273,7 +276,7 @@ def lens_job(args):
             ru = run(PolarizationState(is_polarized=False))
             iu = np.array(ru.i, dtype=float)
             ra = run(sa)
-            picks = rnd.sample(range(ra.x.size), min(nrays, ra.x.size))
+            picks = [0] + rnd.sample(range(1, ra.x.size), min(nrays, ra.x.size) - 1)
             emit = mode == "fresnel"     # field clauses are claimed without scalar coatings only
             ev, sk = trace_events(optic, ra, sa, picks, dict(cls, state=pair[0] if pair else "random"))
             events += ev if emit else []
@@ -286,8 +289,8 @@ def lens_job(args):
             ib = np.array(rb.i, dtype=float)
             ntr += 3
             for r in picks:
-                if not all(math.isfinite(v) for v in (iu[r], ia[r], ib[r])):
-                    skipped += 1
+                if not all(math.isfinite(float(t.N[r])) for t in (ru, ra, rb)):
+                    skipped += 1        # the ray did not reach the image
                     continue
                 events.append({"t": "unpol", "iu": dy(iu[r]), "ia": dy(ia[r]), "ib": dy(ib[r]),
                                "sa": state_rec(sa), "sb": state_rec(sb),
